@@ -664,7 +664,7 @@ func reentrantLocking(files []*ast.File) []string {
 
 // exStoreFingerprints: see the comment at its use.
 func exStoreFingerprints(repo string) []string {
-	return fingerprints(repo, "examples/go-redisd/server", []string{"list.go", "set.go", "zset.go"}, exStoreWant)
+	return fingerprints(repo, "examples/go-redisd/server", []string{"list.go", "set.go", "zset.go", "hash.go"}, exStoreWant)
 }
 
 // protoFingerprints: the parser and the serializer of redis/proto, which Model/ParserImpl, Model/Reader and Model/Resp
@@ -677,7 +677,7 @@ func protoFingerprints(repo string) []string {
 
 var exStoreWant = map[string]bool{"List.LPop": true, "List.RPop": true, "List.LPush": true, "List.RPush": true, "List.Range": true, "clampRange": true, "List.Index": true,
 		"Set.Add": true, "Set.Rem": true, "ZSet.Add": true, "ZSet.Rem": true, "ZSet.Range": true, "ZSet.RangeByScore": true, "limitZSetMembers": true,
-		"reverseZSetMembers": true, "ZSet.Score": true, "ZSet.IncBy": true}
+		"reverseZSetMembers": true, "ZSet.Score": true, "ZSet.IncBy": true, "Hash.Set": true, "Hash.Del": true}
 
 // executorFingerprints: the closures registered for the given commands (RegisterExexutor("NAME", func...)), printed and
 // hashed like the functions above.
